@@ -104,8 +104,8 @@ def judge_tree(text, tree, auto=()):
             bad.append('unset-position:%s' % kind)
             continue
         # (a) self-consistency
-        if kind == 'ES5Program' and not text.strip():
-            pass
+        if kind == 'ES5Program' and (not text.strip() or not n.children()):
+            pass      # the empty program (no token at all: blank text or comments only) has no token to lie on
         elif id(n) in placeholders:
             pass
         else:
@@ -229,6 +229,25 @@ def run(ctx):
                 else:
                     ctx.violation('node position rule violated: ' + b, dict(text=text, with_comments=wc, complaints=bad[:5]))
                     return
+    # the module-level parse() called for several texts in a row in this process (with rejected texts and texts ending in a
+    # comment in between): every tree is judged against ITS OWN text - a node or comment carried over from an earlier text
+    # does not lie on a token of this one
+    seq = ['a = 1; // trailing remark of the first file', 'foo + 1;', 'x = /* open', 'b;', '/* c */ d; /* e */', 'e;\n// last\n',
+           'f;', 'g(', 'h = [1, 2];', '// only a comment', 'i;', 'var j = 1 /* k */', 'l;']
+    for wc in (True, False, True):
+        for text in seq:
+            try:
+                tree = parse(text, with_comments=wc)
+            except Exception:
+                continue
+            bad = judge_tree(text, tree, range(len(text) + 1))
+            ctx.case(('sequence', wc, text), nontrivial=True)
+            ctx.bump('judge:module-level parse() sequence')
+            if bad:
+                ctx.violation('node position rule violated (module-level parse() called for several texts in a row): ' + bad[0],
+                              dict(scenario='parse() sequence', sequence=seq[:seq.index(text) + 1], text=text, with_comments=wc,
+                                   complaints=bad[:5]))
+                return
     ctx.sample(dict(text=texts[0][:160], judged='all nodes: consistency, anchor, token map'))
 
 
